@@ -1775,6 +1775,339 @@ def rule_inner_criteria(ck, solvers):
                       "line %s: inner %s test on %s equals the %s criterion with %s tolerances" % (n.get("l"), kind, dterm, kind, "_inner_res_scale-scaled" if want_scaled else "unscaled"), fn.file, n.get("l"))
 
 
+
+# -------------------------------------------------------------------------------------------------
+# E7: parallel recycled lists keep equal length
+# -------------------------------------------------------------------------------------------------
+
+# groups of co-indexed std::vector<VectorType> fields confirmed by reading the classes (anti-vacuity)
+EXPECTED_LIST_GROUPS = {
+    "RGCR": {"p_list", "q_list"},                      # rgcr.hpp "descent vectors for later recycling": q[k] = A p[k]
+    "FGMRES": {"_vec_v", "_vec_z"},                    # Krylov basis v[k+1] ~ A z[k], z[k] = M^-1 v[k]
+    "IDRS": {"_vec_P", "_vec_dR", "_vec_dX"},          # shadow space / residual and iterate differences
+    "BiCGStabL": {"_vec_rj_hat", "_vec_uj_hat"},       # "vector 'list' for the algorithm (size = l+1)"
+}
+LEN_DELTA = {"push_back": 1, "emplace_back": 1, "pop_back": -1}
+LEN_NEUTRAL = ("at", "front", "back", "size", "reserve", "empty", "capacity", "begin", "end", "cbegin", "cend", "data", "shrink_to_fit")
+TOP = ("?", 0)
+
+
+def is_vector_list(fn, e):
+    t = fn.ntype(e) or ""
+    m = re.match(r"^(const )?std::vector<(.*)>( &)?$", t.strip())
+    if not m:
+        return False
+    inner = m.group(2)
+    return "Vector" in strip_targs(inner.replace("std::vector", "stdvector")) and "stdvector" not in strip_targs(inner.replace("std::vector", "stdvector"))
+
+
+def list_field_of(fn, lo, e):
+    """name of the std::vector<VectorType> field of *this that e denotes, else None"""
+    e = lo.resolve(e)
+    if e.get("k") == "Member" and e.get("field") and (e.get("b") is None or e["b"].get("k") == "This") and is_vector_list(fn, e):
+        return e["n"]
+    return None
+
+
+def index_core(t):
+    """index term with constant offsets stripped: add(1,X) -> X"""
+    m = re.match(r"^(add|sub)\((.*)\)$", t)
+    if m:
+        a, b = split_top(m.group(2))
+        if re.match(r"^-?\d+$", a):
+            return index_core(b)
+        if re.match(r"^-?\d+$", b):
+            return index_core(a)
+    return t
+
+
+def discover_list_groups(members):
+    """connected components of vector-list fields that are subscripted with the same index in one function"""
+    edges, fields = set(), set()
+    for name, fl in members.items():
+        for fn in fl[:1]:
+            lo = Locals(fn)
+            byidx = {}
+            for c in fn.calls():
+                fld = None
+                if c.get("k") == "MCall" and cname(c) == "at" and c.get("obj") is not None:
+                    fld, idx = list_field_of(fn, lo, c["obj"]), c["a"][0]
+                elif c.get("k") == "OpCall" and c.get("op") == "[]" and len(c.get("a", [])) == 2:
+                    fld, idx = list_field_of(fn, lo, c["a"][0]), c["a"][1]
+                if fld:
+                    fields.add(fld)
+                    byidx.setdefault(index_core(term(lo, idx)), set()).add(fld)
+            for fs in byidx.values():
+                for a in fs:
+                    for b in fs:
+                        if a < b:
+                            edges.add((a, b))
+    groups, seen = [], set()
+    for f in sorted(fields):
+        if f in seen:
+            continue
+        comp, st = set(), [f]
+        while st:
+            x = st.pop()
+            if x in comp:
+                continue
+            comp.add(x)
+            for a, b in edges:
+                if a == x:
+                    st.append(b)
+                elif b == x:
+                    st.append(a)
+        seen |= comp
+        if len(comp) > 1:
+            groups.append(frozenset(comp))
+    return groups
+
+
+def len_str(v):
+    return v[0] if v[1] == 0 else "add(%s,%d)" % (v[0], v[1])
+
+
+class ListFlow:
+    """forward dataflow of symbolic list lengths.  State: list -> (base term, integer offset), scalar locals
+    -> evaluated term.  Lists with one common base are 'parallel' with the difference vector of their offsets;
+    such a state is renamed to a program-point symbol so that loops reach a fixpoint."""
+
+    def __init__(self, fn, group, entry, touching, rel=None):
+        self.fn, self.group, self.touching, self.rel = fn, sorted(group), touching, rel
+        self.lo = Locals(fn)
+        self.problems, self.bad_uses = [], []
+        self.exits = []
+        cfg = fn.cfg
+        self.ins = {cfg.entry: dict(entry)}
+        work = [cfg.entry]
+        n = 0
+        while work and n < 5000:
+            n += 1
+            b = work.pop()
+            out = self.transfer(b, dict(self.ins[b]), False)
+            for s in cfg.succ.get(b, []):
+                new = self.join(self.ins.get(s), out, s)
+                if new != self.ins.get(s):
+                    self.ins[s] = new
+                    work.append(s)
+        for b in list(self.ins):
+            out = self.transfer(b, dict(self.ins[b]), True)
+            if b in cfg.normal_exit_preds():
+                self.exits.append((b, out))
+
+    def diffs(self, st):
+        """difference vector if all lists share one base, else None"""
+        vals = [st[g] for g in self.group]
+        if any(v == TOP for v in vals) or len({v[0] for v in vals}) != 1:
+            return None
+        m = min(v[1] for v in vals)
+        return tuple(v[1] - m for v in vals)
+
+    def normalise(self, st, point):
+        d = self.diffs(st)
+        if d is not None and st[self.group[0]][0] != "0":
+            for g, k in zip(self.group, d):
+                st[g] = ("N@%s" % point, k)
+        elif d is not None:
+            m = min(st[g][1] for g in self.group)
+            if m != 0:
+                for g, k in zip(self.group, d):
+                    st[g] = ("N@%s" % point, k)
+        return st
+
+    def join(self, old, new, blk):
+        if old is None:
+            return dict(new)
+        if old == new:
+            return old
+        res = {}
+        d1, d2 = self.diffs(old), self.diffs(new)
+        if d1 is not None and d1 == d2:
+            same = all(old[g] == new[g] for g in self.group)
+            for g, k in zip(self.group, d1):
+                res[g] = old[g] if same else ("N@B%d" % blk, k)
+        else:
+            for g in self.group:
+                res[g] = old[g] if old[g] == new[g] else TOP
+        for k in set(old) | set(new):
+            if k in self.group:
+                continue
+            if k in old and k in new and old[k] == new[k]:
+                res[k] = old[k]
+        return res
+
+    def ev(self, e, st):
+        e = strip(e)
+        k = e.get("k")
+        if k == "Int":
+            return str(e["v"])
+        if k == "Ref" and e.get("dk") == "local":
+            key = "l:%s" % e["d"]
+            if key in st:
+                return st[key]
+            v = self.lo.var.get(e["d"])
+            if v is not None and v.get("ref") and v.get("init") is not None:
+                return self.ev(v["init"], st)
+            return "local:%s@?" % e["n"] if self.lo.writes.get(e["d"], 0) else term(self.lo, e)
+        if k == "Bin" and e["op"] in ("+", "-", "*", "/", "%"):
+            a, b = self.ev(e["lhs"], st), self.ev(e["rhs"], st)
+            nm = {"+": "add", "-": "sub", "*": "mul", "/": "div", "%": "mod"}[e["op"]]
+            if nm in ("add", "mul"):
+                a, b = sorted([a, b])
+            return "%s(%s,%s)" % (nm, a, b)
+        if k == "MCall" and cname(e) == "size" and e.get("obj") is not None:
+            f = list_field_of(self.fn, self.lo, e["obj"])
+            if f in self.group:
+                return len_str(st[f])
+        if k == "Call" and cname(e) in ("min", "max") and len(e.get("a", [])) == 2:
+            return "%s(%s)" % (cname(e), ",".join(sorted(self.ev(a, st) for a in e["a"])))
+        return term(self.lo, e)
+
+    def transfer(self, b, st, record):
+        fn = self.fn
+        for sid in fn.cfg.blocks[b]["el"]:
+            n = fn.by_id(sid)
+            if n is None:
+                continue
+            k = n.get("k")
+            if k == "Decl":
+                for v in n.get("vars", []):
+                    if v.get("ref") or v.get("init") is None:
+                        continue
+                    if any(x.get("k") == "MCall" and cname(x) == "size" for x in walk(v["init"])):
+                        st["l:%s" % v["d"]] = self.ev(v["init"], st)
+                continue
+            if k == "Assign" and strip(n["lhs"]).get("k") == "Ref" and ("l:%s" % strip(n["lhs"]).get("d")) in st:
+                st["l:%s" % strip(n["lhs"])["d"]] = self.ev(n["rhs"], st) if n.get("op") == "=" else "?"
+                continue
+            if k == "Assign" or (k == "OpCall" and n.get("op") == "="):
+                lr = as_assign(n)
+                if lr is not None and list_field_of(fn, self.lo, lr[0]) in self.group:
+                    st[list_field_of(fn, self.lo, lr[0])] = TOP
+                    if record:
+                        self.problems.append("line %s: whole-list assignment %s" % (n.get("l"), render(n)[:50]))
+                continue
+            if not is_call(n):
+                continue
+            nm = cname(n)
+            fld = list_field_of(fn, self.lo, n["obj"]) if (k == "MCall" and n.get("obj") is not None) else None
+            if k == "OpCall" and n.get("op") == "[]" and n.get("a"):
+                fld, nm = list_field_of(fn, self.lo, n["a"][0]), "at"
+            if fld in self.group:
+                if nm in LEN_DELTA:
+                    if st[fld] != TOP:
+                        st[fld] = (st[fld][0], st[fld][1] + LEN_DELTA[nm])
+                elif nm == "clear":
+                    st[fld] = ("0", 0)
+                elif nm == "resize":
+                    st[fld] = (self.ev(n["a"][0], st), 0)
+                elif nm in ("at", "front", "back"):
+                    if record and self.diffs(st) != self.rel:
+                        self.bad_uses.append((n.get("l"), render(n)[:50], self.describe(st)))
+                elif nm not in LEN_NEUTRAL:
+                    st[fld] = TOP
+                    if record:
+                        self.problems.append("line %s: unmodelled list operation %s" % (n.get("l"), render(n)[:50]))
+                self.normalise(st, sid)
+                continue
+            # calls of own methods that change the lists: they need parallel lists and leave them parallel
+            if k == "MCall" and (n.get("obj") is None or n["obj"].get("k") == "This") and nm in self.touching and short_cls(n.get("ccls", "")) == short_cls(fn.cls):
+                if record and self.diffs(st) != self.rel:
+                    self.bad_uses.append((n.get("l"), render(n)[:50], self.describe(st)))
+                d = self.diffs(st)
+                if d is not None:
+                    for g, kk in zip(self.group, d):
+                        st[g] = ("N@%s" % sid, kk)
+                continue
+            # a list handed to some other callee
+            for a in n.get("a", []):
+                f2 = list_field_of(fn, self.lo, a)
+                if f2 in self.group:
+                    pt = fn.type(n["pt"][n["a"].index(a)]) if n.get("pt") and n["a"].index(a) < len(n["pt"]) else ""
+                    if "const" not in pt:
+                        st[f2] = TOP
+                        if record:
+                            self.problems.append("line %s: list %s passed to %s" % (n.get("l"), f2, nm))
+        return st
+
+    def describe(self, st):
+        return ", ".join("|%s| = %s" % (g, "unknown" if st[g] == TOP else len_str(st[g])) for g in self.group)
+
+
+def rule_parallel_lists(ck, solvers):
+    found = {}
+    for sc in sorted(SOLVERS):
+        gs = discover_list_groups(solvers.get(sc, {}))
+        if gs:
+            found[sc] = gs
+    for sc, want in EXPECTED_LIST_GROUPS.items():
+        if frozenset(want) not in found.get(sc, []):
+            ck.incomplete("E7.parallel-lists", "%s: the co-indexed vector lists %s were not found (found: %s)" % (sc, sorted(want), [sorted(g) for g in found.get(sc, [])]))
+    for sc, gs in sorted(found.items()):
+        members = solvers[sc]
+        for group in gs:
+            glist = sorted(group)
+            # methods that change a list length, transitively through own-method calls
+            direct = set()
+            for name, fl in members.items():
+                fn = fl[0]
+                lo = Locals(fn)
+                for c in fn.calls():
+                    if c.get("k") == "MCall" and c.get("obj") is not None and list_field_of(fn, lo, c["obj"]) in group and cname(c) not in LEN_NEUTRAL:
+                        direct.add(name)
+            touching = set(direct)
+            changed = True
+            while changed:
+                changed = False
+                for name, fl in members.items():
+                    if name in touching:
+                        continue
+                    for c in fl[0].calls():
+                        if c.get("k") == "MCall" and (c.get("obj") is None or c["obj"].get("k") == "This") and cname(c) in touching and short_cls(c.get("ccls", "")) == sc:
+                            touching.add(name)
+                            changed = True
+                            break
+            # the relation established by init_symbolic from empty lists
+            rel = tuple(0 for _ in glist)
+            order = sorted(touching, key=lambda x: (x != "init_symbolic", x))
+            for name in order:
+                fl = members[name]
+                key = "%s::%s/{%s}" % (sc, name, ",".join(glist))
+                bad, notes = [], []
+                for fn in fl:
+                    if fn.d.get("ctor") or fn.d.get("dtor"):
+                        continue
+                    tag = short_inst(fn)
+                    if name == "init_symbolic":
+                        entry = {g: ("0", 0) for g in glist}
+                    else:
+                        entry = {g: ("N", k) for g, k in zip(glist, rel)}
+                    lf = ListFlow(fn, group, entry, touching - {name}, rel if name != "init_symbolic" else None)
+                    for pr in lf.problems[:3]:
+                        ck.incomplete("E7.parallel-lists", "%s [%s]: %s" % (key, tag, pr))
+                    for b, st in lf.exits:
+                        d = lf.diffs(st)
+                        cleared = all(st[g] == ("0", 0) for g in glist)
+                        if name == "init_symbolic":
+                            if d is None:
+                                bad.append("[%s] at the exit through line %s the lists are not sized from one common length: %s" % (tag, compress(fn.cfg.block_lines([b])[-1:]), lf.describe(st)))
+                            else:
+                                rel = d
+                                notes.append("establishes %s" % ", ".join("|%s| = n%s" % (g, "+%d" % k if k else "") for g, k in zip(glist, d)))
+                        elif not cleared and d != rel:
+                            bad.append("[%s] at the exit through line %s the parallel lists have different lengths: %s (on entry: %s). Entries k of the lists belong together (co-indexed): after this the next solve pairs entries of different generations" % (
+                                tag, compress(fn.cfg.block_lines([b])[-1:]), lf.describe(st), ", ".join("|%s| = N%s" % (g, "+%d" % k if k else "") for g, k in zip(glist, rel))))
+                        else:
+                            notes.append("exit: %s" % ("all cleared" if cleared else lf.describe(st)))
+                    if name != "init_symbolic":
+                        for ln, what, desc in lf.bad_uses[:2]:
+                            bad.append("[%s] line %s: %s is used while the lists are out of step: %s" % (tag, ln, what, desc))
+                    if not lf.exits:
+                        ck.incomplete("E7.parallel-lists", "%s [%s]: no normal exit reached" % (key, tag))
+                f0 = fl[0]
+                ck.ob("E7.parallel-lists", key, not bad, "; ".join(bad[:2]) if bad else "; ".join(sorted(set(notes))[:3]), f0.file, f0.line)
+
+
 # -------------------------------------------------------------------------------------------------
 # E6: dimensional consistency of the recurrences
 # -------------------------------------------------------------------------------------------------
@@ -1822,6 +2155,13 @@ def rule_dimensions(ck, solvers):
 
 
 RULES = [
+    ("E7.parallel-lists", 9,
+     "std::vector<VectorType> fields of one solver that are subscripted with the same index (discovered by co-indexing: RGCR p_list/q_list, FGMRES _vec_v/_vec_z, "
+     "IDRS _vec_P/_vec_dR/_vec_dX, BiCGStabL _vec_rj_hat/_vec_uj_hat) are parallel arrays. Symbolic length dataflow (push_back/emplace_back/pop_back/clear/"
+     "resize(E) with size() evaluated at the point of the call, locals evaluated at their declaration) over every member that changes a length, directly or "
+     "through own-method calls: init_symbolic sizes all lists from one common length; every other member leaves the length differences it found (or clears "
+     "all), and no element is accessed / no length-changing own method is called while the lists are out of step. Broken => input class: re-use of one solver "
+     "object (second solve after a correct()/apply() that recycled directions): entry k of one list is paired with entry k of another generation."),
     ("E6.dimension", 13,
      "units-of-measure inference on _apply_intern of 12 solvers (BiCGStab once per preconditioning variant): every vector/scalar gets a dimension over "
      "X (solution) and B (rhs) with [A] = B/X, [M^-1] = X/B, typing of axpy/scale/copy/dot/norm2/apply/_apply_precond by callee parameter names, one unknown "
@@ -1927,6 +2267,7 @@ def run(tier):
     rule_config(ck, facts)
     rule_dimensions(ck, solvers)
     rule_inner_criteria(ck, solvers)
+    rule_parallel_lists(ck, solvers)
     ck.assume("comparisons are over a total order (a<b == !(b<=a)): NaN defects are excluded by the isfinite tests that the decision tables show to come first")
     ck.assume("virtual calls resolve to the statically named callee: none of the 16 solvers overrides _set_initial_defect/_set_new_defect/_update_defect/_analyse_defect/_calc_def_norm")
     ck.assume("inner counted loops of _apply_intern run at least once (krylov_dim, l >= 1 are asserted by the constructors/setters)")
